@@ -53,3 +53,25 @@ Record refelem := mkRef { re_shape : shape; re_maxdeg : nat; re_vals : list poly
 Definition refelem_ok (order : nat -> nat) (e : refelem) : bool :=
   qmat_eqb (mass_ref (re_shape e) (re_vals e)) (re_mass e)
   && products_ok (re_shape e) (order (re_maxdeg e)) (re_vals e).
+
+(* ------------------------------------------------------------------ deepening round 3 *)
+(* reference stiffness TENSOR  T^{kl}_ij = int d_k phi_i d_l phi_j  (k, l < dim) *)
+Definition tensor_ref (s : shape) (vals : list poly) (k l : nat) : list (list Q) :=
+  map (fun a => map (fun b => pint s (pmul (pderiv k a) (pderiv l b))) vals) vals.
+Definition tensors_ref (s : shape) (vals : list poly) : list (list (list (list Q))) :=
+  map (fun k => map (fun l => tensor_ref s vals k l) (seq 0 (dim s))) (seq 0 (dim s)).
+Definition tensors_eqb : list (list (list (list Q))) -> list (list (list (list Q))) -> bool :=
+  list_eqb (list_eqb qmat_eqb).
+
+(* reference load vectors for monomial data: int x^m phi_i *)
+Definition load_ref (s : shape) (vals : list poly) (m : mono) : list Q :=
+  map (fun a => pint s (pmul [(1, m)] a)) vals.
+Definition loads_eqb : list (list Q) -> list (list Q) -> bool := list_eqb (list_eqb Qeq_bool).
+Definition load_products_ok (s : shape) (n : nat) (vals : list poly) (ms : list mono) : bool :=
+  forallb (fun m => forallb (fun a => poly_ok s n (pmul [(1, m)] a)) vals) ms.
+
+(* mass matrix on one local facet: the shape functions restricted by the facet parametrisation F
+   (variable i := F_i(s, t)), integrated over the reference facet sf with the parameter measure *)
+Definition restrict (F : list poly) (p : poly) : poly := psubstn (fun i => nth i F []) p.
+Definition facet_mass_ref (sf : shape) (F : list poly) (vals : list poly) : list (list Q) :=
+  let tv := map (restrict F) vals in map (fun a => map (fun b => pint sf (pmul a b)) tv) tv.
